@@ -187,7 +187,9 @@ def loop_cut(eng: Any, s: Any, st: State, ctx: Ctx, it: Any = None):
     object.__setattr__(env_h, "_old_binds", dict(env0._binds))
     inv_h = eng.eval_clause_dict(spec.invariant, env_h)
     st_h = env_h.st.assume(*inv_h.values())
-    st_h = st_h.emit(("$yields", f"loop@L{s.lineno}"))
+    silent = bool(spec.silent(env_h)) if spec.silent is not None else False
+    if not silent:
+        st_h = st_h.emit(("$yields", f"loop@L{s.lineno}"))
     # one more iteration
     if is_for:
         # `elem_sort` may be a tuple of sorts: the item is of one of them (the iteration is verified for each)
@@ -215,6 +217,8 @@ def loop_cut(eng: Any, s: Any, st: State, ctx: Ctx, it: Any = None):
         for st1, out in eng.exec_block(s.body, st_s, ctx):
             if out[0] in ("normal", "continue"):
                 eng.check_linear(st1, None, s, f"loop@L{s.lineno}.", since=ev0)
+                if silent:
+                    eng.oblige(st1, f"loop@L{s.lineno}.silent-iteration-yields-nothing", "invariant", len(st1.out) == len(st_h.out), s)
                 env1 = _locals_env(eng, st1)
                 object.__setattr__(env1, "_old_heap", st.heap)
                 object.__setattr__(env1, "_old_binds", dict(env0._binds))
@@ -361,4 +365,8 @@ def drain_generator(eng: Any, st: State, g: Ref, node: Any, ctx: Ctx, emit: bool
         if isinstance(res, Raised):
             yield st1, ("raise", res.exc)
         else:
-            yield (st1.emit(("$yields-of", fi.key)) if emit else st1), NORMAL
+            quiet = False
+            if c.silent is not None:
+                from .state import Env as _Env
+                quiet = bool(c.silent(_Env(eng, st1, binds)))
+            yield (st1.emit(("$yields-of", fi.key)) if emit and not quiet else st1), NORMAL
